@@ -200,6 +200,7 @@ public:
         for (;;) {
             desired = expected;
             desired.inc_vinsert_delete();
+            YAKUSHIMA_VERIF_HOOK(YAKUSHIMA_VERIF_STORE, &body_);
             if (body_.compare_exchange_weak(expected, desired,
                                             std::memory_order_acq_rel,
                                             std::memory_order_acquire)) {
@@ -214,6 +215,7 @@ public:
         for (;;) {
             desired = expected;
             desired.set_border(tf);
+            YAKUSHIMA_VERIF_HOOK(YAKUSHIMA_VERIF_STORE, &body_);
             if (body_.compare_exchange_weak(expected, desired,
                                             std::memory_order_acq_rel,
                                             std::memory_order_acquire)) {
@@ -228,6 +230,7 @@ public:
         for (;;) {
             desired = expected;
             desired.set_deleted(tf);
+            YAKUSHIMA_VERIF_HOOK(YAKUSHIMA_VERIF_STORE, &body_);
             if (body_.compare_exchange_weak(expected, desired,
                                             std::memory_order_acq_rel,
                                             std::memory_order_acquire)) {
@@ -242,6 +245,7 @@ public:
         for (;;) {
             desired = expected;
             desired.set_inserting_deleting(tf);
+            YAKUSHIMA_VERIF_HOOK(YAKUSHIMA_VERIF_STORE, &body_);
             if (body_.compare_exchange_weak(expected, desired,
                                             std::memory_order_acq_rel,
                                             std::memory_order_acquire)) {
@@ -256,6 +260,7 @@ public:
         for (;;) {
             desired = expected;
             desired.set_root(tf);
+            YAKUSHIMA_VERIF_HOOK(YAKUSHIMA_VERIF_STORE, &body_);
             if (body_.compare_exchange_weak(expected, desired,
                                             std::memory_order_acq_rel,
                                             std::memory_order_acquire)) {
@@ -270,6 +275,7 @@ public:
         for (;;) {
             desired = expected;
             desired.set_splitting(tf);
+            YAKUSHIMA_VERIF_HOOK(YAKUSHIMA_VERIF_STORE, &body_);
             if (body_.compare_exchange_weak(expected, desired,
                                             std::memory_order_acq_rel,
                                             std::memory_order_acquire)) {
@@ -295,22 +301,26 @@ public:
                 expected = get_body();
                 if (expected.get_locked()) {
                     if (i >= 10) { break; }
+                    YAKUSHIMA_VERIF_HOOK(YAKUSHIMA_VERIF_SPIN, &body_);
                     _mm_pause();
                     continue;
                 }
                 desired = expected;
                 desired.set_locked(true);
+                YAKUSHIMA_VERIF_HOOK(YAKUSHIMA_VERIF_STORE, &body_);
                 if (body_.compare_exchange_weak(expected, desired,
                                                 std::memory_order_acq_rel,
                                                 std::memory_order_acquire)) {
                     return;
                 }
             }
+            YAKUSHIMA_VERIF_HOOK(YAKUSHIMA_VERIF_SPIN, &body_);
             std::this_thread::sleep_for(std::chrono::microseconds(1));
         }
     }
 
     [[nodiscard]] node_version64_body get_body() const {
+        YAKUSHIMA_VERIF_HOOK(YAKUSHIMA_VERIF_LOAD, &body_);
         return body_.load(std::memory_order_acquire);
     }
 
@@ -335,6 +345,7 @@ public:
                 !sv.get_splitting()) {
                 return sv;
             }
+            YAKUSHIMA_VERIF_HOOK(YAKUSHIMA_VERIF_SPIN, &body_);
             _mm_pause();
         }
     }
@@ -354,6 +365,7 @@ public:
     void init() { set_body(node_version64_body()); }
 
     void set_body(const node_version64_body newv) {
+        YAKUSHIMA_VERIF_HOOK(YAKUSHIMA_VERIF_STORE, &body_);
         body_.store(newv, std::memory_order_release);
     }
 
@@ -375,6 +387,7 @@ public:
                 desired.set_splitting(false);
             }
             desired.set_locked(false);
+            YAKUSHIMA_VERIF_HOOK(YAKUSHIMA_VERIF_STORE, &body_);
             if (body_.compare_exchange_weak(expected, desired,
                                             std::memory_order_acq_rel,
                                             std::memory_order_acquire)) {
